@@ -499,7 +499,10 @@ def check_persistent_state(repo, chk, prefixes, rule="P-state"):
                     test_params = pd(n.test)
                     for st in [y for br in (n.body, n.orelse) for s_ in br for y in ast.walk(s_)]:
                         if isinstance(st, ast.Assign):
-                            for tg in st.targets:
+                            flat_targets = []
+                            for tg0 in st.targets:
+                                flat_targets.extend(tg0.elts if isinstance(tg0, (ast.Tuple, ast.List)) else [tg0])   # self.A, _ = f(args)
+                            for tg in flat_targets:
                                 if isinstance(tg, ast.Attribute) and isinstance(tg.value, ast.Name) and tg.value.id == "self" and tg.attr in attrs:
                                     vp = pd(st.value)
                                     if vp and not vp <= test_params:
@@ -749,3 +752,76 @@ def check_iteration_order_agreement(repo, chk, prefixes, rule="O-iter"):
                     p_ = next(z for z in ss if z[0] == major)
                     chk.violation(rule, s_[1].key, "order:%s" % attr, ("%s traverses self.%s in `" + s_[0] + "` order while %s traverses it in `" + p_[0] + "` order: results paired by position belong to different entries unless the two orders happen to coincide") % (s_[1].qual, attr, p_[1].qual), file=rel, line=getattr(s_[2], "lineno", s_[1].lineno) if hasattr(s_[2], "lineno") else s_[1].lineno)
     chk.instance(rule, "%d (class, attribute) pairs traversed by several methods under %s" % (n_attr, ", ".join(prefixes)), nontrivial=False)
+
+
+def check_class_level_mutables(repo, chk, prefixes, rule="L6-classattr"):
+    """a mutable display bound in a class body is ONE object shared by every instance: a method that fills it through
+    `self` (self.X[k] = v, self.X.append(..)) without the instance ever getting its own (`self.X = ...` in a method
+    that runs first, i.e. __init__ of the class or a base) lets the objects see each other's entries"""
+    from .model import AnalysisError
+
+    chk.rule(rule, "a dict / list / set bound in a class body and filled through `self` by a method of the class (self.X[k] = .., self.X.append / update / ...) is given to every instance as its own object by __init__ (of the class or of a base class): otherwise all instances share one table - per-object results (integrals, caches, selections) of one object show up in another, depending on the order in which they were used")
+    INPLACE = ("update", "append", "extend", "setdefault", "pop", "add", "insert", "remove", "clear", "popitem", "sort", "reverse")
+    n_attr = 0
+    for rel, m in sorted(repo.mods.items()):
+        if "/tests/" in rel or not any(rel.startswith(p) for p in prefixes):
+            continue
+        for c in m.classes.values():
+            for st in c.node.body:
+                tgt = None
+                if isinstance(st, ast.Assign) and len(st.targets) == 1 and isinstance(st.targets[0], ast.Name):
+                    tgt, val = st.targets[0].id, st.value
+                elif isinstance(st, ast.AnnAssign) and isinstance(st.target, ast.Name) and st.value is not None:
+                    tgt, val = st.target.id, st.value
+                if tgt is None:
+                    continue
+                if not (isinstance(val, (ast.Dict, ast.List, ast.Set)) or (isinstance(val, ast.Call) and isinstance(val.func, ast.Name) and val.func.id in ("dict", "list", "set") and not val.args)):
+                    continue
+                n_attr += 1
+                family = list(c.mro) + list(c.all_subclasses())
+                muts = []
+                for k in family:
+                    for mm in k.methods.values():
+                        if any(isinstance(d_, ast.Name) and d_.id in ("classmethod", "staticmethod") for d_ in mm.node.decorator_list):
+                            continue
+                        for x in _walk_fn(mm.node):
+                            if isinstance(x, ast.Call) and isinstance(x.func, ast.Attribute) and x.func.attr in INPLACE and isinstance(x.func.value, ast.Attribute) and x.func.value.attr == tgt and isinstance(x.func.value.value, ast.Name) and x.func.value.value.id == "self":
+                                muts.append((mm, x))
+                            if isinstance(x, (ast.Assign, ast.AugAssign)):
+                                for tt in (x.targets if isinstance(x, ast.Assign) else [x.target]):
+                                    if isinstance(tt, ast.Subscript) and isinstance(tt.value, ast.Attribute) and tt.value.attr == tgt and isinstance(tt.value.value, ast.Name) and tt.value.value.id == "self":
+                                        muts.append((mm, x))
+                # the instance gets its own object: `self.X = ...` in __init__ of the class or a base / subclass that
+                # every construction path runs (we accept any __init__ in the mro of the class that defines the attribute
+                # or below it)
+                own = False
+                for k in family:
+                    init = k.methods.get("__init__")
+                    if init is None:
+                        continue
+                    for x in _walk_fn(init.node):
+                        if isinstance(x, (ast.Assign, ast.AnnAssign)):
+                            for tt in (x.targets if isinstance(x, ast.Assign) else [x.target]):
+                                if isinstance(tt, ast.Attribute) and tt.attr == tgt and isinstance(tt.value, ast.Name) and tt.value.id == "self":
+                                    own = True
+                # a process-wide "seen" registry - filled through self but only asked for membership (`k in self.X`),
+                # never read back as data - is shared on purpose: what is flagged is a table whose ENTRIES are used
+                reads_data = False
+                for k in family:
+                    for mm in k.methods.values():
+                        for x in _walk_fn(mm.node):
+                            if isinstance(x, ast.Subscript) and isinstance(x.ctx, ast.Load) and isinstance(x.value, ast.Attribute) and x.value.attr == tgt and isinstance(x.value.value, ast.Name) and x.value.value.id == "self":
+                                reads_data = True
+                            if isinstance(x, ast.Call) and isinstance(x.func, ast.Attribute) and x.func.attr in ("get", "items", "values", "pop", "copy") and isinstance(x.func.value, ast.Attribute) and x.func.value.attr == tgt and isinstance(x.func.value.value, ast.Name) and x.func.value.value.id == "self":
+                                reads_data = True
+                            if isinstance(x, (ast.For, ast.comprehension)) and isinstance(x.iter, ast.Attribute) and x.iter.attr == tgt and isinstance(x.iter.value, ast.Name) and x.iter.value.id == "self":
+                                reads_data = True
+                if muts and not reads_data:
+                    chk.instance(rule, "%s.%s (class level): filled through self but only tested for membership - a shared registry, not per-object data" % (c.name, tgt), nontrivial=False)
+                    continue
+                # a registry filled by class-level code (decorators, classmethods) and only read through self is fine
+                chk.instance(rule, "%s.%s = %s (class level): filled through self in %d place(s), own object per instance: %s" % (c.name, tgt, norm_text(val)[:20], len(muts), own), nontrivial=bool(muts))
+                if muts and not own:
+                    mm, x = muts[0]
+                    chk.violation(rule, mm.key, "shared:%s.%s" % (c.name, tgt), "`%s` fills `self.%s`, which is bound once in the body of class %s and never re-bound per instance (no `self.%s = ...` in an __init__): every %s object shares this table, so what one object accumulated is read back - divided by its own totals - by another" % (norm_text(x)[:60], tgt, c.name, tgt, c.name), file=mm.mod.rel, line=x.lineno)
+    chk.instance(rule, "%d class-level mutable attributes under %s" % (n_attr, ", ".join(prefixes)), nontrivial=False)
